@@ -199,4 +199,48 @@ def renderWith (fallback : Bool) (rootDir : Str) (entries : List TraceEntry) (qu
       | .error x => .error x
       | .ok m => .ok (Str.join ['\n'] (traces ++ q) ++ ['\n'] ++ name ++ [':', ' '] ++ m)
 
+/-! ## One turn of the interactive loop -/
+
+/-- bin/transpile.py `Interactive.rebuild_module` + the transpile call (:420-421): `modules.unload(main)`, `modules.load(main)`,
+    `transpiler.transpile(entrypoint)` — the first failure is the turn's outcome. Only `load` runs under `Modules.load`'s clauses. -/
+def interactiveTurn (unload load transpile : Except Exc Unit) : Except Exc Unit :=
+  match unload with
+  | .error x => .error x
+  | .ok _ => match load with
+    | .error x => .error x
+    | .ok _ => transpile
+
+/-! ## Normalising sites and the audit of every except clause -/
+
+def Atom.all : List Atom := ErrName.all.map .err ++ Builtin.all.map .bi
+
+/-- an except clause whose outcome is always a member of the hierarchy: it wraps into `Errors.<n>`, or it only catches members
+    of the hierarchy and hands the same class on (`renode` / bare `raise`) -/
+def handlerSafe (h : Handler) : Bool :=
+  match h.action with
+  | .wrap _ _ => true
+  | .renode => h.catches.isA (.err .Error)
+  | .reraise => h.catches.isA (.err .Error)
+
+/-- the clauses of a try statement convert EVERY `Exception`: each clause up to and including one that catches `Exception` itself is safe -/
+def coversException : List Handler → Bool
+  | [] => false
+  | h :: hs => handlerSafe h && (h.catches == .bi .Exception || coversException hs)
+
+/-- … and every clause wraps into the class `n` (the parser's `Errors.Syntax`) -/
+def wrapsAllInto (n : ErrName) (hs : List Handler) : Bool :=
+  hs.all (fun h => match h.action with | .wrap m _ => m == n | _ => false)
+
+/-- shape of a clause: caught class and disposition (the model's tables vs the audit table) -/
+def Handler.shape (h : Handler) : Atom × Disposition :=
+  (h.catches, match h.action with | .wrap n _ => .wrap n | .renode => .renode | .reraise => .reraise)
+
+def auditShapes (s : Site) (tryNo : Nat) : List (Atom × Disposition) :=
+  (exceptAudit.filter (fun c => c.site == s && c.tryNo == tryNo)).filterMap (fun c => match c.catches with | [a] => some (a, c.disp) | _ => none)
+
+/-- the exception does not leave the clause -/
+def swallows : Disposition → Bool
+  | .print | .pass | .value | .retry => true
+  | _ => false
+
 end Tranp.Errors
